@@ -156,6 +156,14 @@ fn panic_text(p: Box<dyn std::any::Any + Send>) -> String {
 
 /// Specifiers of a pattern as the monitors understand them (independent, ASCII-only scan):
 /// (converter, padding if it fits i64). Used only to attribute panics and to decide whether `%m` is present.
+/// `\d` exactly as the pattern encoder's regex understands it (Unicode decimal digits, e.g. fullwidth `１`):
+/// asked of the regex crate itself, so that the scan below splits a pattern into the same specifiers
+fn is_regex_digit(c: char) -> bool {
+  static R: std::sync::OnceLock<regex::Regex> = std::sync::OnceLock::new();
+  let mut b = [0u8; 4];
+  R.get_or_init(|| regex::Regex::new(r"^\d$").unwrap()).is_match(c.encode_utf8(&mut b))
+}
+
 fn scan_pattern(p: &str) -> Vec<(char, Option<i64>)> {
   let c: Vec<char> = p.chars().collect();
   let mut i = 0;
@@ -166,7 +174,7 @@ fn scan_pattern(p: &str) -> Vec<(char, Option<i64>)> {
     let neg = j < c.len() && c[j] == '-';
     if neg { j += 1; }
     let d0 = j;
-    while j < c.len() && c[j].is_ascii_digit() { j += 1; }
+    while j < c.len() && is_regex_digit(c[j]) { j += 1; }
     let has_digits = j > d0;
     if (has_digits || !neg) && j < c.len() && c[j].is_ascii_alphabetic() {
       let pad = if has_digits { c[d0..j].iter().collect::<String>().parse::<i64>().ok().map(|v| if neg { -v } else { v }) } else { None };
